@@ -482,7 +482,7 @@ pub fn execute(t: &Trace, stats: &mut Stats, record: bool) -> Outcome {
 /// Bounded systematic pass: all 17 x 17 colour pairs x (no fault + every fault kind at every
 /// output offset) for one short data string.  Done for one seeded workload in 256.
 pub fn systematic(base: &Trace, st: &mut Stats) -> (u64, Option<(Trace, Outcome)>) {
-    if base.run % 256 != 0 || matches!(base.surface.as_str(), "vec" | "file") {
+    if (base.run / 16) % 256 != 0 || matches!(base.surface.as_str(), "vec" | "file") {
         return (0, None);
     }
     let mut count = 0;
